@@ -21,6 +21,7 @@ ASSUMPTIONS = ["a target matrix is a mixing matrix, i.e. symmetric (DESIGN C12);
                "code tests the focal-first orientation only, which is noted, not claimed",
                "dyadic target weights and uniforms: float products are exact, so float and rational decisions agree"]
 TRUSTED = ["instrumentation as for C11"]
+PARTIAL = ['the second sentence (the distance to the target is smaller after rewiring) is a statement about the distribution of runs; no theorem and no check covers it (C12_full keeps it as an opaque Prop parameter); proved instead: the acceptance ratio is the Metropolis ratio for the target (C12_ratio, C12_ratio_pi)']
 TECHNIQUE = ("Coq proof (numerator non-zero implies every factor positive; acceptance ratio = ratio of the target "
              "products) + model/implementation correspondence under scripted randomness + verified checker on runs")
 LEVEL_TEXT = (
